@@ -1175,7 +1175,7 @@ func (t *tlock) handle(cs *connState) message {
 // walkOne walks zero or one path elements.
 //
 // The slice passed as qids is append and returned.
-func walkOne(qids []QID, from File, names []string, getattr bool) ([]QID, File, AttrMask, Attr, error) {
+func walkOne(qids []QID, from File, names []string, getattr bool, fromNode *pathNode) ([]QID, File, AttrMask, Attr, error) {
 	nwname := len(names)
 	if nwname > 1 {
 		// We require exactly zero or one elements.
@@ -1203,6 +1203,14 @@ func walkOne(qids []QID, from File, names []string, getattr bool) ([]QID, File, 
 			break
 		}
 		if getattr {
+			// GetAttr is a read operation on the path walked to, not on
+			// from's: hold that path's node lock like every other call on
+			// it. (For a clone the caller holds it already.)
+			if fromNode != nil && nwname == 1 {
+				childNode := fromNode.pathNodeFor(names[0])
+				childNode.opMu.RLock()
+				defer childNode.opMu.RUnlock()
+			}
 			_, valid, attr, err = sf.GetAttr(AttrMaskAll)
 			if err != nil {
 				// Don't leak the file.
@@ -1258,7 +1266,7 @@ func doWalk(cs *connState, ref *fidRef, names []string, getattr bool) (qids []QI
 			}
 
 			// Clone the single element.
-			qids, sf, valid, attr, err = walkOne(nil, ref.file, nil, getattr)
+			qids, sf, valid, attr, err = walkOne(nil, ref.file, nil, getattr, nil)
 			if err != nil {
 				return err
 			}
@@ -1312,7 +1320,7 @@ func doWalk(cs *connState, ref *fidRef, names []string, getattr bool) (qids []QI
 
 			// Pass getattr = true to walkOne since we need the file type for
 			// newRef.
-			qids, sf, valid, attr, err = walkOne(qids, walkRef.file, names[i:i+1], true)
+			qids, sf, valid, attr, err = walkOne(qids, walkRef.file, names[i:i+1], true, walkRef.pathNode)
 			if err != nil {
 				return err
 			}
